@@ -62,6 +62,13 @@ RULE = (
     'an id with a trailing zero byte or two prefix-related ids; distinct = '
     'distinct canonical case JSON. intersect_slice_ranges: exhaustive 5^4 '
     'bounds x 4 id families (non-trivial: both ranges constrain something).')
+RULE += (
+    ' '
+    'Later widenings: 2-d feature layouts C/F/transposed; SQLite views over a database in a c'
+    'aller-defined blob encoding (parse_examples); the first use of a view is, for half of th'
+    'e cases, an abandoned walk of each kind; parents dropped before the last observation; a '
+    'check over 64-200 clients inserted out of id order; iteration orders compared with a chi'
+    'ld interpreter under another PYTHONHASHSEED.')
 ASSUMPTIONS = [
     'all generated preprocessors are deterministic, strictly per-example and '
     'row-preserving (BatchPreprocessor doc); under a row-count-changing client '
